@@ -214,6 +214,18 @@ class PathAnalysis:
                 if not CMP[op](lv[1], n):
                     return None
                 return env, user
+            if lv[0] == "rng":
+                lo, hi = lv[1], lv[2]
+                if op == "==" and not _in_rng(lv, n):
+                    return None
+                if op == "<" and lo is not None and lo >= n:
+                    return None
+                if op == "<=" and lo is not None and lo > n:
+                    return None
+                if op == ">" and hi is not None and hi <= n:
+                    return None
+                if op == ">=" and hi is not None and hi < n:
+                    return None
             if lv[0] == "ne":
                 if op == "==" and lv[1] == n:
                     return None
@@ -241,16 +253,31 @@ class PathAnalysis:
                     user = u2
         # refine
         if target is not None and (target in tracked or target.startswith("$")):
+            cur = env.get(target)
             if op == "==":
+                if cur is not None and cur[0] == "rng" and not _in_rng(cur, n):
+                    return None
                 env = dict(env)
                 env[target] = ("c", n)
             elif op == "!=":
-                cur = env.get(target)
                 if cur is None or cur[0] == "r":
                     env = dict(env)
                     env[target] = ("ne", n)
             elif op in ("<", "<=", ">", ">="):
-                pass
+                lo, hi = (cur[1], cur[2]) if cur is not None and cur[0] == "rng" else (None, None)
+                if op == "<":
+                    hi = n - 1 if hi is None else min(hi, n - 1)
+                elif op == "<=":
+                    hi = n if hi is None else min(hi, n)
+                elif op == ">":
+                    lo = n + 1 if lo is None else max(lo, n + 1)
+                else:
+                    lo = n if lo is None else max(lo, n)
+                if lo is not None and hi is not None and lo > hi:
+                    return None
+                if cur is None or cur[0] in ("rng", "r"):
+                    env = dict(env)
+                    env[target] = ("c", lo) if (lo is not None and lo == hi) else ("rng", lo, hi)
         return env, user
 
     def _is_stable(self, l):
@@ -330,6 +357,10 @@ class PathAnalysis:
 
     def on_switch_edge(self, func, bid, cond, case, env, user):
         return user
+
+
+def _in_rng(r, n):
+    return (r[1] is None or r[1] <= n) and (r[2] is None or n <= r[2])
 
 
 def freeze(env):
